@@ -69,6 +69,7 @@ static uint16_t rand_seed;
 /* Current up/downstream IP packet */
 static struct packet outpkt;
 static struct packet inpkt;
+static int inpkt_delivered;	/* inpkt.seqno was completed and written to tun */
 int outchunkresent = 0;
 static time_t outchunktime;		/* when the current chunk was last (re)sent */
 
@@ -131,6 +132,7 @@ client_init(void)
 	inpkt.len = 0;
 	inpkt.seqno = 0;
 	inpkt.fragment = 0;
+	inpkt_delivered = 0;
 }
 
 void
@@ -1002,6 +1004,7 @@ tunnel_dns(int tun_fd, int dns_fd)
 		inpkt.seqno = new_down_seqno;
 		inpkt.fragment = new_down_fragment;
 		inpkt.len = 0;
+		inpkt_delivered = 0;
 		send_ping_soon = 500;
 	}
 
@@ -1023,11 +1026,14 @@ tunnel_dns(int tun_fd, int dns_fd)
 			inpkt.seqno = new_down_seqno;
 			inpkt.fragment = new_down_fragment;
 			inpkt.len = 0;
+			inpkt_delivered = 0;
 		} else if (inpkt.fragment == 0 && new_down_fragment == 0 &&
-			   inpkt.len == 0) {
+			   inpkt.len == 0 && !inpkt_delivered) {
 			/* Weird situation: we probably got a no-data reply
 			   for this seqno (see above), and the actual data
-			   is following now. */
+			   is following now. (Not when we already passed this
+			   packet on: then it is a second copy of a
+			   one-fragment packet, which the next test drops.) */
 			/* okay, nothing to do here, just so that next else-if
 			   doesn't trigger */
 		} else if (new_down_fragment <= inpkt.fragment) {
@@ -1070,6 +1076,7 @@ tunnel_dns(int tun_fd, int dns_fd)
 				write_tun(tun_fd, buf, datalen);
 			}
 			inpkt.len = 0;
+			inpkt_delivered = 1;
 			/* Keep .seqno and .fragment as is, so that we won't
 			   reassemble from duplicate fragments */
 		}
